@@ -31,6 +31,7 @@ func main() {
 	Register("canon", runCanon)
 	Register("query", runQuery)
 	Register("yaml", runYAML)
+	Register("tokens", runTokens)
 	Register("bin", runBin)
 	Register("replay", runReplay)
 	Main()
@@ -793,6 +794,154 @@ func runQuery(c *Ctx) {
 		queryCase(c, tmp, q, true, nil, 0)
 	}
 	c.Stats["queries"] = n
+}
+
+// ---------------------------------------------------------------------------------------------
+// stream tokens: every token kind of the lexer in rejected positions.
+// The table is written from the language definition, independently of lexer.go: inject = text put
+// into the query, tok = the bytes ParseError.Token must carry (the opening quote for an interpolated
+// string), termStart = may begin a term (accepted after a binary operator), afterTerm = may follow a
+// complete term (binary operators, postfix forms); "?" in a flag = not used in that position.
+
+type lexTok struct {
+	inject, tok          string
+	termStart, afterTerm string // "y", "n", "?"
+}
+
+func lexTokens() []lexTok {
+	var ts []lexTok
+	add := func(ts0, at string, xs ...string) {
+		for _, x := range xs {
+			ts = append(ts, lexTok{x, x, ts0, at})
+		}
+	}
+	// operators: never start a term, all may follow one
+	add("n", "y", "|", ",", "//", "//=", "|=", "=", "+=", "-=", "*=", "/=", "%=", "==", "!=", "<", "<=", ">", ">=",
+		"*", "/", "%", "and", "or")
+	add("y", "y", "-", "+")                                                // unary minus / plus
+	add("n", "n", "?//", ":", ";", ")", "]", "}")                          // only inside patterns / brackets
+	add("n", "y", "?", "as")                                               // postfix / binding
+	add("y", "n", "..", "(", "{")                                          // terms; not a suffix
+	add("y", "y", "[")                                                     // array or index suffix
+	add("y", "?", ".")                                                     // identity; ". " after a term: suffix start
+	add("y", "y", ".foo", ".foo_1", ".a")                                  // tokIndex: term or suffix
+	add("y", "n", "foo", "f_1", "m::f", "mod::name_2")                     // tokIdent, tokModuleIdent
+	add("y", "n", "$x", "$__loc__", "$name_1", "$m::v", "$mod::var")       // tokVariable, tokModuleVariable
+	add("y", "n", "@base64", "@x", "@json")                                // tokFormat
+	add("y", "n", "0", "12", "1.5", ".5", "1e3", "1.5e-3", "2E+10", "0.0") // tokNumber shapes
+	add("y", "n", `"s"`, `""`, `"a\tb"`, `"\u00e9"`, "\"\u4e16\u754c\"")   // tokString
+	add("y", "n", "null", "true", "false", "if", "try", "reduce", "foreach", "label", "break")
+	add("n", "n", "then", "elif", "else", "end", "catch")
+	add("?", "n", "def", "module", "import", "include") // declarations: position-dependent
+	// interpolated strings: the rejected token is the opening quote
+	ts = append(ts, lexTok{`"a\(1)b"`, `"`, "y", "n"}, lexTok{`"\(.x)"`, `"`, "y", "n"})
+	return ts
+}
+
+type tokCtx struct {
+	name, prefix string
+	guaranteed   func(t lexTok) bool // the grammar admits exactly one token here
+	positional   string              // "termStart" | "afterTerm" | ""
+}
+
+func runTokens(c *Ctx) {
+	tmp, _ := os.MkdirTemp("", "c17h")
+	defer os.RemoveAll(tmp)
+	isVar := func(t lexTok) bool { return strings.HasPrefix(t.inject, "$") && !strings.Contains(t.inject, "::") }
+	ctxs := []tokCtx{
+		{"after-reduce-pattern", "reduce . as $v ", func(t lexTok) bool { return t.inject != "(" }, ""},
+		{"after-label", "label ", func(t lexTok) bool { return !isVar(t) }, ""},
+		{"after-label-var", ".a |\nlabel $out ", func(t lexTok) bool { return t.inject != "|" }, ""},
+		{"after-operator", "1 + ", nil, "termStart"},
+		{"after-operator-2", ".a\n | .b //= ", nil, "termStart"},
+		{"after-term", "1 ", nil, "afterTerm"},
+		{"after-term-2", "\u4e16 = 1 |\r\n.x[0] ", nil, "afterTerm"},
+	}
+	// the second after-term context must itself be a viable prefix: use a valid one
+	ctxs[6].prefix = ".a as $w |\r\n\"\u4e16\" | .x[0] "
+	n := 0
+	for _, t := range lexTokens() {
+		for _, cx := range ctxs {
+			rejected := false
+			switch {
+			case cx.guaranteed != nil:
+				rejected = cx.guaranteed(t)
+			case cx.positional == "termStart":
+				rejected = t.termStart == "n"
+			case cx.positional == "afterTerm":
+				rejected = t.afterTerm == "n"
+			}
+			if !rejected {
+				continue
+			}
+			for _, suffix := range []string{"", " 2", "\n| .z"} { // at the end of the query / followed by more
+				src := cx.prefix + t.inject + suffix
+				inj := len(cx.prefix)
+				desc := fmt.Sprintf("ctx=%s tok=%s q=%s", cx.name, strconv.Quote(t.inject), strconv.Quote(src))
+				_, err := gojq.Parse(src)
+				var pe *gojq.ParseError
+				if err == nil || !errors.As(err, &pe) {
+					c.Violation("token-position other :: a query with %s in a rejected position was accepted or failed without ParseError (%v) %s", strconv.Quote(t.inject), err, desc)
+					continue
+				}
+				n++
+				c.Count("tokens:" + cx.name)
+				wantOff := inj + len(t.tok)
+				if pe.Offset != wantOff || pe.Token != t.tok {
+					c.Violation("token-position other :: ParseError{Offset:%d Token:%q}, expected Offset %d Token %q (the rejected token) %s",
+						pe.Offset, pe.Token, wantOff, t.tok, desc)
+				}
+				// the command: caret = display width of the line before the first byte of the token
+				for _, viaFile := range []bool{false, true} {
+					var args []string
+					fname, contents := "<arg>", src
+					if viaFile {
+						fname = filepath.Join(tmp, "t.jq")
+						os.WriteFile(fname, []byte(src), 0o644)
+						args = []string{"-n", "-f", fname}
+					} else {
+						contents = strings.TrimSpace(src)
+						args = []string{"-n", src}
+					}
+					var out, er bytes.Buffer
+					cli.VerifRunC17(args, strings.NewReader(""), &out, &er)
+					stderr := er.String()
+					rep := parseReport(stderr, "invalid query: ", fname, contents)
+					ls := inj // start of the line containing the token
+					for ls > 0 && contents[ls-1] != '\n' && contents[ls-1] != '\r' {
+						ls--
+					}
+					wantLine := 1
+					for i := 0; i < inj; i++ {
+						if contents[i] == '\n' || contents[i] == '\r' && (i+1 >= len(contents) || contents[i+1] != '\n') {
+							wantLine++
+						}
+					}
+					wantCol := runewidth.StringWidth(contents[ls:inj])
+					f := strings.Fields(strings.Trim(rep, "()"))
+					gotLine, gotCol := 1, -1
+					if len(f) == 4 {
+						if f[1] != "-" {
+							gotLine, _ = strconv.Atoi(f[1])
+						}
+						gotCol, _ = strconv.Atoi(f[3])
+					}
+					lineEnd := inj
+					for lineEnd < len(contents) && contents[lineEnd] != '\n' && contents[lineEnd] != '\r' {
+						lineEnd++
+					}
+					if inj-ls <= 48 && (gotLine != wantLine || gotCol != wantCol || !strings.HasPrefix(contents[ls:lineEnd], excerptOf(rep)) && excerptOf(rep) != contents[ls:lineEnd]) {
+						c.Violation("token-position other :: the command points at line %d column %d, the rejected token %s starts at line %d column %d (file=%v) %s",
+							gotLine, gotCol, strconv.Quote(t.inject), wantLine, wantCol, viaFile, desc)
+					}
+					perr := fmt.Sprintf("(pe %d %d)", pe.Offset, len(pe.Token))
+					c.Emit("(query %s %s %s %s %s %s)", Hexs([]byte(fname)), Hexs([]byte(contents)), perr, Hexs([]byte(stderr)), rep, swtab(excerptOf(rep)))
+				}
+			}
+		}
+	}
+	c.Stats["token_cases"] = n
+	c.Stats["token_kinds"] = len(lexTokens())
 }
 
 // ---------------------------------------------------------------------------------------------
